@@ -648,6 +648,51 @@ func propC06(c *Ctx) {
 			}
 		}
 	}
+	// RFC 7296 s1.5 / s2.21 single out particular notifications, exchange types and the Initiator / Response bits (what
+	// is sent outside an SA, what an INFORMATIONAL may carry): an implementation may do so as well.  With a key,
+	// EncodeEncrypt must protect all of them alike.
+	sw := c.suite("single-notify-sweep", "oracle",
+		"messages with exactly one Notify payload: every integer literal of the current source that fits 16 bits as the Notify type x every one that fits 8 bits (and 34..37) as the exchange type x the four combinations of the Initiator and Response flags (+ one random flag octet), rotating over the 9 suites and both roles; each opened by the independent reference like any other message; non-trivial = every case")
+	var ntypes, etypes []uint64
+	for _, v := range dictInts {
+		if v <= 0xFFFF {
+			ntypes = append(ntypes, v)
+		}
+		if v <= 0xFF {
+			etypes = append(etypes, v)
+		}
+	}
+	if len(ntypes) == 0 {
+		ntypes, etypes = []uint64{1, 4, 5, 7, 9, 11, 14, 16384, 16385}, []uint64{34, 35, 36, 37}
+	}
+	if !c.thorough() && len(etypes) > 12 { // quick tier: the defined exchange types and a rotating sample of the rest
+		keep := []uint64{34, 35, 36, 37}
+		for i := 0; i < 8; i++ {
+			keep = append(keep, etypes[(int(c.seed)+i*7)%len(etypes)])
+		}
+		etypes = keep
+	}
+	suites := allSuites()
+	n := 0
+	for _, nt := range ntypes {
+		for _, et := range etypes {
+			for _, fl := range []uint64{0, 8, 32, 40, uint64(g.r.Intn(256))} {
+				n++
+				st := suites[n%len(suites)]
+				role := message.Role(n%2 == 0)
+				k := g.saKeys(st)
+				lsa := &longSA{sender: newSA(k), peers: [2]*security.IKESAKey{newSA(k), newSA(k)}}
+				spi := []byte(nil)
+				if n%3 == 0 {
+					spi = g.keyBytesRandom(4)
+				}
+				sx := L(A("msg"), L(A("H"), N(g.u64()), N(g.u64()), N(2), N(0), N(et), N(fl), N(g.u32())),
+					L(L(A("N"), N(uint64(n%4)), N(nt), X(spi), X(g.keyBytesRandom(n%5)))))
+				idx++
+				c.c06Case(sw, s2, g, k, lsa, role, sx, idx, nil)
+			}
+		}
+	}
 	sc := c.suite("sk-model-vs-impl", "correspondence",
 		"reference-built datagrams with arbitrary legal padding: Go DecodeDecrypt outcome must equal the Lean model's; Go EncodeEncrypt bytes must equal the Lean RFC spec's SK message; non-trivial = >= 1 payload")
 	c.correspond(sc, corr)
